@@ -30,6 +30,9 @@ BUILT = {
  "C10": ("exploration", "runtime monitor: history checker - archive tree+hash snapshots before/after every run, sys.addaudithook log of writes/renames/removes, virtual clock, history model for directory order and ':last'/':first' references",
          "All step sequences of length 3 (quick) / 4 (thorough) over (group, new/reused instance, clock step) plus random longer histories are executed as real runs; after each run the new directory must be fresh and under its own group, every earlier run's files byte-identical and untouched by any fs event, names chronological across seconds, and ':last'/':first' must resolve to the most recent/earliest run (untied extremes).",
          "virtual clock replaces datetime in csvpath.csvpaths and csvpath.managers.metadata; archive/manifest.json (global run list) excluded", "DESIGN.md#c10"),
+ "C11": ("exploration", "runtime monitor: history + executable abstract model of the named-files store, replayed operation by operation against the real FileManager; disk state, manifests and hash snapshots of every stored version compared after each step, from the same and from a fresh instance",
+         "All canonical (up to renaming) operation histories of length 4 (quick) / 5 (thorough) over add / mutate source / remove / new instance plus random long histories are executed for real; after every operation the current version's bytes and hash-name, the manifest entries, the fingerprint and every version ever stored are checked against the model.",
+         "40-line abstract model written from the property statement; hashlib.sha256", "DESIGN.md#c11"),
  "C13": ("exploration", "runtime monitor: trace-specification checking ('no component / line evaluated after stop or skip fires', 'advance(n) lines have no effects', 'last() fires once on the final line') on LineEvent + EvalEvent hooks, plus the reference evaluator",
          "Systematic product of control form x position x firing line x scan window x blank layout (about 20k real runs) plus random two-control / onmatch programs; per line the pushes that happened, the components evaluated, matches and counters are compared with the documented behaviour. Known findings F9/F9b attributed by exact emulation.",
          "reference semantics from stop.md/advance.md/last.md; A1 corner (scan window ending on a blank record) not decided", "DESIGN.md#c13"),
